@@ -17,6 +17,15 @@ impl Tree {
     }
 }
 
+/// Escapes `&` and `<`, which `xmlwriter` writes into attribute values as is.
+fn escape_attr(s: &str) -> std::borrow::Cow<'_, str> {
+    if s.contains(['&', '<']) {
+        s.replace('&', "&amp;").replace('<', "&lt;").into()
+    } else {
+        s.into()
+    }
+}
+
 /// Checks that type has a default value.
 trait IsDefault: Default {
     /// Checks that type has a default value.
@@ -314,7 +323,7 @@ fn write_filters(tree: &Tree, opt: &WriteOptions, xml: &mut XmlWriter) {
                         let prefix = opt.id_prefix.as_deref().unwrap_or_default();
                         xml.write_attribute_fmt(
                             "xlink:href",
-                            format_args!("#{}{}", prefix, child.id()),
+                            format_args!("#{}{}", escape_attr(prefix), escape_attr(child.id())),
                         );
                     }
 
@@ -713,7 +722,7 @@ fn write_element(node: &Node, is_clip_path: bool, opt: &WriteOptions, xml: &mut 
                         let prefix = opt.id_prefix.as_deref().unwrap_or_default();
                         xml.write_attribute_fmt(
                             "xlink:href",
-                            format_args!("#{}{}", prefix, text_path.id()),
+                            format_args!("#{}{}", escape_attr(prefix), escape_attr(text_path.id())),
                         );
 
                         if text_path.start_offset != 0.0 {
@@ -912,7 +921,7 @@ impl XmlWriterExt for XmlWriter {
 
     #[inline(never)]
     fn write_svg_attribute<V: Display + ?Sized>(&mut self, id: AId, value: &V) {
-        self.write_attribute(id.to_str(), value)
+        self.write_attribute(id.to_str(), &escape_attr(&value.to_string()))
     }
 
     #[inline(never)]
@@ -921,9 +930,9 @@ impl XmlWriterExt for XmlWriter {
 
         if let Some(ref prefix) = opt.id_prefix {
             let full_id = format!("{}{}", prefix, id);
-            self.write_attribute("id", &full_id);
+            self.write_attribute("id", &escape_attr(&full_id));
         } else {
-            self.write_attribute("id", id);
+            self.write_attribute("id", &escape_attr(id));
         }
     }
 
@@ -987,7 +996,10 @@ impl XmlWriterExt for XmlWriter {
     fn write_func_iri(&mut self, aid: AId, id: &str, opt: &WriteOptions) {
         debug_assert!(!id.is_empty());
         let prefix = opt.id_prefix.as_deref().unwrap_or_default();
-        self.write_attribute_fmt(aid.to_str(), format_args!("url(#{}{})", prefix, id));
+        self.write_attribute_fmt(
+            aid.to_str(),
+            format_args!("url(#{}{})", escape_attr(prefix), escape_attr(id)),
+        );
     }
 
     fn write_rect_attrs(&mut self, r: NonZeroRect) {
@@ -1012,10 +1024,10 @@ impl XmlWriterExt for XmlWriter {
     fn write_filter_input(&mut self, id: AId, input: &filter::Input) {
         self.write_attribute(
             id.to_str(),
-            match input {
-                filter::Input::SourceGraphic => "SourceGraphic",
-                filter::Input::SourceAlpha => "SourceAlpha",
-                filter::Input::Reference(ref s) => s,
+            &match input {
+                filter::Input::SourceGraphic => "SourceGraphic".into(),
+                filter::Input::SourceAlpha => "SourceAlpha".into(),
+                filter::Input::Reference(ref s) => escape_attr(s),
             },
         );
     }
